@@ -200,6 +200,30 @@ func runC04(r *run) {
 		if dec.More() {
 			r.violate(violation{What: "more than one JSON value on the line", Input: encDescribe(c), Actual: fmt.Sprintf("%q", line)})
 		}
+		if i%3 == 0 {
+			// the member reader of the proof against encoding/json: the ordered members of the record's object,
+			// decoded key and raw value text
+			obs := "err"
+			d2 := json.NewDecoder(bytes.NewReader(line))
+			if tok, err := d2.Token(); err == nil && tok == json.Delim('{') {
+				var parts []string
+				ok := true
+				for d2.More() {
+					kt, err := d2.Token()
+					ks, isStr := kt.(string)
+					var raw json.RawMessage
+					if err != nil || !isStr || d2.Decode(&raw) != nil {
+						ok = false
+						break
+					}
+					parts = append(parts, hxs(ks)+":"+hx(raw))
+				}
+				if ok {
+					obs = "ok " + strings.Join(parts, " ")
+				}
+			}
+			r.emit("Q jmem "+hx(line[:len(line)-1]), obs)
+		}
 		detail := ""
 		if obj["time"] != c.tsText {
 			detail = fmt.Sprintf("time is %v, want %q", obj["time"], c.tsText)
